@@ -266,6 +266,7 @@ type qgen struct {
 	lastTail string
 	// what the generator meant, independent of what the parser's hooks made of it
 	intent string
+	lastExp string
 }
 
 var qNodes = []*node.Node{}
@@ -293,7 +294,7 @@ func init() {
 	for _, v := range []int64{-2, -1, 10, 11} {
 		qNums = append(qNums, triple.NewLiteralObject(mustLit(literal.Int64, v)))
 	}
-	for _, v := range []float64{0.25, -2, 2.5} {
+	for _, v := range []float64{0.25, -2, 2.5, 1.25, 1.75, -2.5} {
 		qNums = append(qNums, triple.NewLiteralObject(mustLit(literal.Float64, v)))
 	}
 	qNums = append(qNums, qObjs[4], qObjs[5], qObjs[6], qObjs[10])
@@ -312,6 +313,10 @@ func fmtT(t time.Time) string { return t.Format(time.RFC3339Nano) }
 func (q *qgen) clauseText(level int) string {
 	r := q.r
 	var b strings.Builder
+	// c: what the clause means, written down by the generator next to the text it produces (never by way of
+	// the BQL parser): the reference is run on it, so a hook that builds another clause from the text shows
+	c := &semantic.GraphClause{}
+	defer func() { q.lastExp = encClause(c) }()
 	// Alias names are fresh within the clause: a name shared between an ID alias of a node object and
 	// another binding of the same clause has a behaviour pinned by the suite ("?c \"p\"@[] ?gc ID ?gc":
 	// the id wins) that lies outside the fragment the properties speak about.
@@ -322,20 +327,25 @@ func (q *qgen) clauseText(level int) string {
 	sType, sID := "", ""
 	// subject
 	if r.chance(1, 3) {
-		b.WriteString(qNodes[r.intn(len(qNodes))].String())
+		c.S = qNodes[r.intn(len(qNodes))]
+		b.WriteString(c.S.String())
 	} else {
-		b.WriteString(q.binding())
+		c.SBinding = q.binding()
+		b.WriteString(c.SBinding)
 	}
 	if level > 0 {
 		if r.chance(1, 6) {
-			b.WriteString(" as " + alias())
+			c.SAlias = alias()
+			b.WriteString(" as " + c.SAlias)
 		}
 		if r.chance(1, 8) {
 			sType = alias()
+			c.STypeAlias = sType
 			b.WriteString(" type " + sType)
 		}
 		if r.chance(1, 8) {
 			sID = alias()
+			c.SIDAlias = sID
 			b.WriteString(" id " + sID)
 		}
 	}
@@ -345,51 +355,71 @@ func (q *qgen) clauseText(level int) string {
 	times := []time.Time{qt0, qt1, qt2}
 	switch x := r.intn(10); {
 	case x < 3:
-		b.WriteString(qPreds[r.intn(len(qPreds))].String())
+		c.P = qPreds[r.intn(len(qPreds))]
+		c.PTemporal = c.P.Type() == predicate.Temporal
+		b.WriteString(c.P.String())
 	case x < 7 || level == 0:
-		b.WriteString(q.binding())
+		c.PBinding = q.binding()
+		b.WriteString(c.PBinding)
 		if level > 0 {
 			if r.chance(1, 8) {
-				b.WriteString(" as " + alias())
+				c.PAlias = alias()
+				b.WriteString(" as " + c.PAlias)
 			}
 			if r.chance(1, 8) {
-				b.WriteString(" id " + alias())
+				c.PIDAlias = alias()
+				b.WriteString(" id " + c.PIDAlias)
 			}
 			if r.chance(1, 8) {
-				b.WriteString(" at " + alias())
+				c.PAnchorAlias = alias()
+				b.WriteString(" at " + c.PAnchorAlias)
 			}
 		}
 	case x < 8:
-		fmt.Fprintf(&b, `"%s"@[%s]`, ids[r.intn(2)], q.binding())
+		c.PID, c.PAnchorBinding, c.PTemporal = ids[r.intn(2)], q.binding(), true
+		fmt.Fprintf(&b, `"%s"@[%s]`, c.PID, c.PAnchorBinding)
 		if r.chance(1, 4) {
-			b.WriteString(" as " + alias())
+			c.PAlias = alias()
+			b.WriteString(" as " + c.PAlias)
 		}
 	default:
 		lo, hi := "", ""
 		if r.chance(2, 3) {
-			lo = fmtT(times[r.intn(3)])
+			t := times[r.intn(3)]
+			c.PLowerBound = &t
+			lo = fmtT(t)
 		}
 		if r.chance(2, 3) {
-			hi = fmtT(times[r.intn(3)])
+			t := times[r.intn(3)]
+			c.PUpperBound = &t
+			hi = fmtT(t)
 		}
-		fmt.Fprintf(&b, `"%s"@[%s,%s]`, ids[r.intn(2)], lo, hi)
+		c.PID, c.PTemporal = ids[r.intn(2)], true
+		fmt.Fprintf(&b, `"%s"@[%s,%s]`, c.PID, lo, hi)
 	}
 	b.WriteString(" ")
 	// object
 	switch x := r.intn(10); {
 	case x < 3:
-		b.WriteString(qObjs[r.intn(len(qObjs))].String())
+		c.O = qObjs[r.intn(len(qObjs))]
+		if op, err := c.O.Predicate(); err == nil {
+			c.OTemporal = op.Type() == predicate.Temporal
+		}
+		b.WriteString(c.O.String())
 	case x < 8 || level == 0:
-		b.WriteString(q.binding())
+		c.OBinding = q.binding()
+		b.WriteString(c.OBinding)
 		if level > 0 {
 			if r.chance(1, 8) {
-				b.WriteString(" as " + alias())
+				c.OAlias = alias()
+				b.WriteString(" as " + c.OAlias)
 			}
 			if r.chance(1, 8) || (sType != "" && r.chance(1, 2)) {
 				a := alias()
 				if sType != "" && r.chance(1, 2) {
 					a = sType
 				}
+				c.OTypeAlias = a
 				b.WriteString(" type " + a)
 			}
 			if r.chance(1, 8) || (sID != "" && r.chance(1, 2)) {
@@ -397,16 +427,21 @@ func (q *qgen) clauseText(level int) string {
 				if sID != "" && r.chance(1, 2) {
 					a = sID
 				}
+				c.OIDAlias = a
 				b.WriteString(" id " + a)
 			}
 			if r.chance(1, 8) {
-				b.WriteString(" at " + alias())
+				c.OAnchorAlias = alias()
+				b.WriteString(" at " + c.OAnchorAlias)
 			}
 		}
 	case x < 9:
-		fmt.Fprintf(&b, `"%s"@[%s]`, ids[r.intn(2)], q.binding())
+		c.OID, c.OAnchorBinding, c.OTemporal = ids[r.intn(2)], q.binding(), true
+		fmt.Fprintf(&b, `"%s"@[%s]`, c.OID, c.OAnchorBinding)
 	default:
-		fmt.Fprintf(&b, `"%s"@[%s,%s]`, ids[r.intn(2)], fmtT(times[r.intn(3)]), fmtT(times[r.intn(3)]))
+		lo, hi := times[r.intn(3)], times[r.intn(3)]
+		c.OID, c.OLowerBound, c.OUpperBound, c.OTemporal = ids[r.intn(2)], &lo, &hi, true
+		fmt.Fprintf(&b, `"%s"@[%s,%s]`, c.OID, fmtT(lo), fmtT(hi))
 	}
 	return b.String()
 }
@@ -428,34 +463,45 @@ func (q *qgen) clauseFrom(t *triple.Triple, vm map[string]string, level int) str
 		return b
 	}
 	var b strings.Builder
+	c := &semantic.GraphClause{}
+	defer func() { q.lastExp = encClause(c) }()
 	if r.chance(1, 3) {
+		c.S = t.Subject()
 		b.WriteString(t.Subject().String())
 	} else {
-		b.WriteString(name("n:" + t.Subject().String()))
+		c.SBinding = name("n:" + t.Subject().String())
+		b.WriteString(c.SBinding)
 		if level > 0 && r.chance(1, 6) {
-			b.WriteString(" type " + name("s:"+t.Subject().Type().String()))
+			c.STypeAlias = name("s:" + t.Subject().Type().String())
+			b.WriteString(" type " + c.STypeAlias)
 		}
 		if level > 0 && r.chance(1, 6) {
-			b.WriteString(" id " + name("s:"+t.Subject().ID().String()))
+			c.SIDAlias = name("s:" + t.Subject().ID().String())
+			b.WriteString(" id " + c.SIDAlias)
 		}
 	}
 	b.WriteString(" ")
 	p := t.Predicate()
 	switch x := r.intn(10); {
 	case x < 4:
+		c.P, c.PTemporal = p, p.Type() == predicate.Temporal
 		b.WriteString(p.String())
 	case x < 8 || p.Type() == predicate.Immutable:
-		b.WriteString(name("p:" + p.String()))
+		c.PBinding = name("p:" + p.String())
+		b.WriteString(c.PBinding)
 		if level > 0 && r.chance(1, 6) {
-			b.WriteString(" id " + name("s:"+string(p.ID())))
+			c.PIDAlias = name("s:" + string(p.ID()))
+			b.WriteString(" id " + c.PIDAlias)
 		}
 		if level > 0 && p.Type() == predicate.Temporal && r.chance(1, 4) {
 			ta, _ := p.TimeAnchor()
-			b.WriteString(" at " + name("t:"+instantNanos(*ta)))
+			c.PAnchorAlias = name("t:" + instantNanos(*ta))
+			b.WriteString(" at " + c.PAnchorAlias)
 		}
 	case x < 9:
 		ta, _ := p.TimeAnchor()
-		fmt.Fprintf(&b, `"%s"@[%s]`, p.ID(), name("t:"+instantNanos(*ta)))
+		c.PID, c.PAnchorBinding, c.PTemporal = string(p.ID()), name("t:"+instantNanos(*ta)), true
+		fmt.Fprintf(&b, `"%s"@[%s]`, p.ID(), c.PAnchorBinding)
 	case len(timeBindings(vm)) > 0 && r.chance(2, 3):
 		// bounds taken from time bindings of earlier clauses: "id"@[?lo,?hi]
 		ta, _ := p.TimeAnchor()
@@ -476,25 +522,36 @@ func (q *qgen) clauseFrom(t *triple.Triple, vm map[string]string, level int) str
 		if lo == "" && hi == "" {
 			lo = tbs[r.intn(len(tbs))].name
 		}
+		c.PID, c.PLowerBoundAlias, c.PUpperBoundAlias, c.PTemporal = string(p.ID()), lo, hi, true
 		fmt.Fprintf(&b, `"%s"@[%s,%s]`, p.ID(), lo, hi)
 	default:
 		ta, _ := p.TimeAnchor()
 		lo, hi := "", ""
 		if r.chance(2, 3) {
-			lo = fmtT(ta.Add(-time.Duration(r.intn(2)) * time.Hour))
+			t := ta.Add(-time.Duration(r.intn(2)) * time.Hour)
+			c.PLowerBound = &t
+			lo = fmtT(t)
 		}
 		if r.chance(2, 3) {
-			hi = fmtT(ta.Add(time.Duration(r.intn(2)) * time.Hour))
+			t := ta.Add(time.Duration(r.intn(2)) * time.Hour)
+			c.PUpperBound = &t
+			hi = fmtT(t)
 		}
+		c.PID, c.PTemporal = string(p.ID()), true
 		fmt.Fprintf(&b, `"%s"@[%s,%s]`, p.ID(), lo, hi)
 	}
 	b.WriteString(" ")
 	o := t.Object()
 	if r.chance(1, 3) {
+		c.O = o
+		if op, err := o.Predicate(); err == nil {
+			c.OTemporal = op.Type() == predicate.Temporal
+		}
 		b.WriteString(o.String())
 	} else if op, err := o.Predicate(); err == nil && op.Type() == predicate.Temporal && r.chance(1, 3) {
 		ta, _ := op.TimeAnchor()
-		fmt.Fprintf(&b, `"%s"@[%s]`, op.ID(), name("t:"+instantNanos(*ta)))
+		c.OID, c.OAnchorBinding, c.OTemporal = string(op.ID()), name("t:"+instantNanos(*ta)), true
+		fmt.Fprintf(&b, `"%s"@[%s]`, op.ID(), c.OAnchorBinding)
 	} else {
 		key := "o:" + o.String()
 		if n, err := o.Node(); err == nil {
@@ -502,17 +559,21 @@ func (q *qgen) clauseFrom(t *triple.Triple, vm map[string]string, level int) str
 		} else if op, err := o.Predicate(); err == nil {
 			key = "p:" + op.String()
 		}
-		b.WriteString(name(key))
+		c.OBinding = name(key)
+		b.WriteString(c.OBinding)
 		if n, err := o.Node(); err == nil && level > 0 {
 			if r.chance(1, 6) {
-				b.WriteString(" type " + name("s:"+n.Type().String()))
+				c.OTypeAlias = name("s:" + n.Type().String())
+				b.WriteString(" type " + c.OTypeAlias)
 			}
 			if r.chance(1, 6) {
-				b.WriteString(" id " + name("s:"+n.ID().String()))
+				c.OIDAlias = name("s:" + n.ID().String())
+				b.WriteString(" id " + c.OIDAlias)
 			}
 		}
 		if level > 0 && r.chance(1, 12) {
-			b.WriteString(" type ?t" + fmt.Sprint(len(vm))) // may not apply: the clause then does not match
+			c.OTypeAlias = "?t" + fmt.Sprint(len(vm)) // may not apply: the clause then does not match
+			b.WriteString(" type " + c.OTypeAlias)
 		}
 	}
 	return b.String()
@@ -558,43 +619,61 @@ func (q *qgen) queryText(graphs []string) string {
 		n = 4
 	}
 	level := r.intn(2)
-	var cls []string
+	var cls, exps []string
 	vm := map[string]string{}
 	for i := 0; i < n; i++ {
 		c := q.clauseText(level)
 		if ids := q.g.okIDs(); len(ids) > 0 && r.chance(4, 5) {
 			c = q.clauseFrom(q.g.uni[ids[r.intn(len(ids))]], vm, level)
 		}
+		e := q.lastExp
 		if q.mode == "optional" && i > 0 && r.chance(1, 2) {
 			c = "optional { " + c + " }"
+			e = "1" + e[1:]
 		}
 		cls = append(cls, c)
+		exps = append(exps, e)
+	}
+	if q.mode == "limit" && r.chance(1, 4) {
+		// a lone clause of plain bindings, two of them the same: the clause filters the triples the driver
+		// returns, so a limit handed down to the driver would cut before the filter
+		pat := [][3]string{{"?a", "?b", "?a"}, {"?a", "?b", "?b"}, {"?a", "?a", "?b"}, {"?a", "?a", "?a"}, {"?a", "?b", "?c"}}[r.intn(5)]
+		cls = []string{pat[0] + " " + pat[1] + " " + pat[2]}
+		exps = []string{encClause(&semantic.GraphClause{SBinding: pat[0], PBinding: pat[1], OBinding: pat[2]})}
 	}
 	// The rows of a table cannot represent "one solution binding nothing": a pattern whose mandatory
 	// prefix binds nothing is outside what OPTIONAL can express here (known finding D35, exercised by its
 	// own witness); the first clause of an OPTIONAL pattern therefore binds something.
 	if q.mode == "optional" && len(bindingsIn(strings.NewReplacer(`"p"`, "", `"q"`, "").Replace(cls[0]))) == 0 {
 		cls[0] = "?s0 ?p0 ?o0"
+		exps[0] = encClause(&semantic.GraphClause{SBinding: "?s0", PBinding: "?p0", OBinding: "?o0"})
 	}
 	where := strings.Join(cls, " . ")
 	// bindings outside quoted/bracketed parts
 	bs := bindingsIn(strings.NewReplacer(`"p"`, "", `"q"`, "").Replace(where))
-	var proj []string
+	var proj, xp []string
 	for _, b := range bs {
 		if r.chance(3, 4) || len(proj) == 0 {
 			if r.chance(1, 8) {
 				proj = append(proj, b+" as "+b+"x")
+				xp = append(xp, hx(b)+"|"+hx(b+"x")+"|0|0")
 			} else {
 				proj = append(proj, b)
+				xp = append(xp, hx(b)+"|"+hx("")+"|0|0")
 			}
 		}
 	}
 	if len(proj) == 0 {
 		proj = []string{"?a"}
+		xp = []string{hx("?a") + "|" + hx("") + "|0|0"}
+	}
+	var xgs []string
+	for _, g := range graphs {
+		xgs = append(xgs, hx(g))
 	}
 	text := fmt.Sprintf("select %s from %s where { %s }", strings.Join(proj, ", "), strings.Join(graphs, ", "), where)
 	q.lastProj, q.lastCls, q.lastTail = proj, cls, ""
-	q.intent = ""
+	q.intent = " xc=" + strings.Join(exps, ";") + " xg=" + strings.Join(xgs, ",")
 	outs := func() []string {
 		var o []string
 		for _, p := range proj {
@@ -610,27 +689,42 @@ func (q *qgen) queryText(graphs []string) string {
 			nk = len(bs)
 		}
 		var keys, sel []string
+		collided := false
+		xp = nil
 		for i, b := range bs {
 			switch {
 			case i < nk:
 				name := b
-				if r.chance(1, 5) {
+				if len(bs) > nk && !collided && r.chance(1, 6) {
+					collided = true
+					// the key's output name is spelled like a binding that is aggregated further on: GROUP BY
+					// then names the output column, not that binding
+					name = bs[nk+r.intn(len(bs)-nk)]
+					sel = append(sel, b+" as "+name)
+					xp = append(xp, hx(b)+"|"+hx(name)+"|0|0")
+				} else if r.chance(1, 5) {
 					name = b + "k"
 					sel = append(sel, b+" as "+name)
+					xp = append(xp, hx(b)+"|"+hx(name)+"|0|0")
 				} else {
 					sel = append(sel, b)
+					xp = append(xp, hx(b)+"|"+hx("")+"|0|0")
 				}
 				keys = append(keys, name)
 			default:
 				switch r.intn(4) {
 				case 0:
 					sel = append(sel, fmt.Sprintf("count(%s) as %sc", b, b))
+					xp = append(xp, hx(b)+"|"+hx(b+"c")+"|1|0")
 				case 1:
 					sel = append(sel, fmt.Sprintf("count(distinct %s) as %sd", b, b))
+					xp = append(xp, hx(b)+"|"+hx(b+"d")+"|1|1")
 				case 2:
 					sel = append(sel, fmt.Sprintf("sum(%s) as %ss", b, b))
+					xp = append(xp, hx(b)+"|"+hx(b+"s")+"|2|0")
 				default:
 					sel = append(sel, fmt.Sprintf("count(%s) as %sc", b, b))
+					xp = append(xp, hx(b)+"|"+hx(b+"c")+"|1|0")
 				}
 			}
 		}
@@ -684,14 +778,19 @@ func (q *qgen) queryText(graphs []string) string {
 		text += " having " + q.havingExpr(outs, 0)
 	}
 	// the global time bound comes after HAVING and before LIMIT
+	xlo, xhi := "-", "-"
 	switch r.intn(12) {
 	case 0:
 		q.lastTail = " before " + fmtT(qt1)
+		xhi = encTimeP(&qt1)
 	case 1:
 		q.lastTail = " after " + fmtT(qt1)
+		xlo = encTimeP(&qt1)
 	case 2:
 		q.lastTail = " between " + fmtT(qt0) + ", " + fmtT(qt1)
+		xlo, xhi = encTimeP(&qt0), encTimeP(&qt1)
 	}
+	q.intent += " xp=" + strings.Join(xp, ";") + " xlo=" + xlo + " xhi=" + xhi
 	text += q.lastTail
 	q.lastOuts = outs
 	if q.meta {
@@ -717,7 +816,7 @@ func (q *qgen) havingExpr(outs []string, depth int) string {
 		case 1, 2:
 			return fmt.Sprintf(`%s %s "%d"^^type:int64`, b, op, []int{-2, -1, 0, 1, 2, 10}[r.intn(6)])
 		case 3:
-			return fmt.Sprintf(`%s %s "%s"^^type:float64`, b, op, []string{"-2", "0.25", "1.5", "2.5"}[r.intn(4)])
+			return fmt.Sprintf(`%s %s "%s"^^type:float64`, b, op, []string{"-2", "0.25", "1.5", "2.5", "1.75", "-2.25", "0.5", "2"}[r.intn(8)])
 		case 4:
 			return fmt.Sprintf(`%s %s "%s"^^type:text`, b, op, []string{"a", "a!", "x y", "/u"}[r.intn(4)])
 		case 5:
@@ -775,7 +874,7 @@ func cmdQuery(args []string) error {
 		seen := map[string]bool{}
 		for tries := 0; len(g.uni) < nt && tries < 200; tries++ {
 			objs := qObjs
-			if (*mode == "group" || *mode == "having" || *mode == "order") && r.chance(1, 2) {
+			if (strings.Contains(*mode, "group") || strings.Contains(*mode, "having") || strings.Contains(*mode, "order")) && r.chance(1, 2) {
 				objs = qNums
 			}
 			t, _ := triple.New(qNodes[r.intn(len(qNodes))], qPreds[r.intn(len(qPreds))], objs[r.intn(len(objs))])
@@ -806,6 +905,9 @@ func cmdQuery(args []string) error {
 		}
 		for k := 0; k < *per; k++ {
 			nfrom := 1 + r.intn(ng)
+			if ms := strings.Split(*mode, "+"); len(ms) > 1 {
+				q.mode = ms[r.intn(len(ms))] // "order+limit": each statement in one of the modes
+			}
 			text := q.queryText(names[:nfrom])
 			// overlap only matters among the graphs actually listed
 			ov := false
